@@ -3,6 +3,7 @@
 # With -R as 4th arg the patch is applied in reverse (used to re-introduce a fixed defect).
 patch="$1"; pid="$2"; tier="${3:-quick}"; rev="${4:-}"
 cd /verif
+export VERIF_EVIDENCE_DIR=/tmp/verif_evidence_seeded; mkdir -p $VERIF_EVIDENCE_DIR
 if ! git -C /repo diff --quiet; then echo "repo dirty, refusing"; exit 3; fi
 git -C /repo apply $rev "$patch" || { echo "patch does not apply"; exit 3; }
 ./check "$pid" "$tier" > /tmp/seeded_$pid.out 2>&1; code=$?
